@@ -51,6 +51,18 @@ StrCells == {[k |-> "PlainDate.fromStr", n |-> n] : n \in EdgeDays}
             \cup {[k |-> kk, n |-> n, t |-> t] : kk \in {"PlainDateTime.fromStr", "Instant.fromStr"}, n \in {MinDay - 1, MinDay, MinDay + 1, MaxDay, MaxDay + 1}, t \in {Midnight, T1, TLast}}
 ZdtCells == {[k |-> "ZonedDateTime.new", ns |-> Add(b, FromInt(d))] : b \in {MaxInstantBig, Neg(MaxInstantBig)}, d \in Deltas}
 DateEpochCells == {[k |-> "PlainDate.epochNsUtc", n |-> n] : n \in {MinDay, MinDay + 1, MaxDay, 0}}
+\* constrain clamps month and day, never the year
+DateConstrainCells == {[k |-> "PlainDate.newConstrain", d |-> d] : d \in {Date(275761, 1, 1), Date(275761, 9, 13), Date(275760, 9, 14), Date(275760, 13, 40), Date(-271822, 12, 31), Date(-271822, 4, 19),
+                                                                          Date(-271821, 4, 18), Date(-271821, 0, 0), Date(275760, 9, 13), Date(-271821, 4, 19)}}
+\* a wall-clock date-time in a fixed-offset zone: its INSTANT (wall - offset) decides, not its UTC reading
+T5 == Time(5, 0, 0, 0, 0, 0)     T19 == Time(19, 0, 0, 0, 0, 0)
+DTToZonedCells == {[k |-> "PlainDateTime.toZonedOffset", n |-> c[1], t |-> c[2], off |-> off] :
+                     c \in {<<MaxDay, Midnight>>, <<MaxDay, T5>>, <<MaxDay, Time(5, 0, 0, 0, 0, 1)>>, <<MaxDay, Time(4, 59, 59, 999, 999, 999)>>, <<MaxDay - 1, T19>>, <<MaxDay - 1, Time(19, 0, 0, 0, 0, 1)>>,
+                             <<MinDay, T19>>, <<MinDay, Time(18, 59, 59, 999, 999, 999)>>, <<MinDay + 1, Midnight>>, <<MinDay + 1, T5>>, <<MinDay + 1, Time(4, 59, 59, 999, 999, 999)>>, <<0, Midnight>>},
+                     off \in {300, -300, 0}}
+\* PlainDate.toZonedDateTime({timeZone: UTC, plainTime}): the combined date-time must be within the date-time limits (step 6.c) and its
+\* instant within the instant limits; tt = "none" is the start of the day
+DateToZonedCells == {[k |-> "PlainDate.toZonedUtc", n |-> n, tt |-> tt] : n \in {MinDay, MinDay + 1, MaxDay - 1, MaxDay, 0}, tt \in {"none", "midnight", "t1", "last"}}
 InstNewCells == {[k |-> "Instant.new", ns |-> Add(b, FromInt(d))] : b \in {MaxInstantBig, Neg(MaxInstantBig)}, d \in Deltas} \cup {[k |-> "Instant.new", ns |-> MulSmall(MaxInstantBig, 2)]}
 InstAddCells == {[k |-> "Instant.add", i |-> Add(b, FromInt(d0)), ns |-> FromInt(d), sub |-> s] : b \in {MaxInstantBig, Neg(MaxInstantBig)}, d0 \in {-1, 0, 1} , d \in Deltas, s \in BOOLEAN} 
 InstAddCellsOK == {c \in InstAddCells : InInstantRange(c.i)}
@@ -63,7 +75,7 @@ DurAddCells == {[k |-> "Duration.add", a |-> a, b |-> b] :
                   b \in {Dur10(Zero, Zero, Zero, Zero, Zero, Zero, One, Zero, Zero, Zero), Dur10(Zero, Zero, Zero, Zero, Zero, Zero, Neg(One), Zero, Zero, Zero),
                          Dur10(Zero, Zero, Zero, Zero, Zero, Zero, Zero, FromInt(999), Zero, Zero), Dur10(Zero, Zero, Zero, Zero, Zero, Zero, Zero, FromInt(1000), Zero, Zero),
                          Dur10(Zero, Zero, Zero, Zero, Zero, Zero, Zero, FromInt(-999), Zero, Zero), Dur10(Zero, Zero, Zero, Zero, Zero, Zero, Zero, FromInt(-1000), Zero, Zero)}}
-Cells == DateNewCells \cup DateAddCells \cup DateAddMonthCells \cup DateAddWeekCells \cup DTNewCells \cup DTAddCells \cup DTRoundCells \cup DateToDTCells \cup DateEpochCells
+Cells == DateNewCells \cup DateAddCells \cup DateAddMonthCells \cup DateAddWeekCells \cup DTNewCells \cup DTAddCells \cup DTRoundCells \cup DateToDTCells \cup DateEpochCells \cup DateToZonedCells \cup DateConstrainCells \cup DTToZonedCells
          \cup DateConvCells \cup StrCells \cup ZdtCells \cup InstNewCells \cup InstAddCellsOK \cup InstMsCells \cup InstRoundCellsOK \cup DurAddCells
 
 \* the call (op, args) and its expected outcome
@@ -86,6 +98,22 @@ Call(c) ==
     [] c.k = "PlainDateTime.fromStr" -> [op |-> c.k, args |-> [dt |-> DTJ(DT(CivilFromDays(c.n), c.t))], out |-> OutDT(DTNew(DT(CivilFromDays(c.n), c.t)))]
     [] c.k = "Instant.fromStr" -> [op |-> c.k, args |-> [dt |-> DTJ(DT(CivilFromDays(c.n), c.t))], out |-> InstantNew(Add(Mul(DayNsBig, FromInt(c.n)), TimeNsOf(c.t)))]
     [] c.k = "ZonedDateTime.new" -> [op |-> c.k, args |-> [ns |-> c.ns], out |-> InstantNew(c.ns)]
+    [] c.k = "PlainDate.newConstrain" ->
+         [op |-> "PlainDate.newConstrain", args |-> [d |-> c.d],
+          out |-> IF c.d.y < -271821 \/ c.d.y > 275760 THEN ErrRange
+                  ELSE LET m == IF c.d.m < 1 THEN 1 ELSE IF c.d.m > 12 THEN 12 ELSE c.d.m
+                           dd == IF c.d.d < 1 THEN 1 ELSE IF c.d.d > DIM(c.d.y, m) THEN DIM(c.d.y, m) ELSE c.d.d
+                       IN IF InDateRange(DFC(Date(c.d.y, m, dd))) THEN Ok(Date(c.d.y, m, dd)) ELSE ErrRange]
+    [] c.k = "PlainDateTime.toZonedOffset" ->
+         LET x == DT(CivilFromDays(c.n), c.t)
+             ns == Sub(Add(Mul(DayNsBig, FromInt(c.n)), TimeNsOf(c.t)), K9(FromInt(c.off * 60)))
+         IN [op |-> "PlainDateTime.toZonedOffset", args |-> [dt |-> DTJ(x), off |-> c.off],
+             out |-> IF DTNew(x).kind # "ok" \/ ~InInstantRange(ns) THEN ErrRange ELSE Ok(ns)]
+    [] c.k = "PlainDate.toZonedUtc" ->
+         LET t == CASE c.tt = "t1" -> T1 [] c.tt = "last" -> TLast [] OTHER -> Midnight
+             ns == Add(Mul(DayNsBig, FromInt(c.n)), TimeNsOf(t))
+         IN [op |-> "PlainDate.toZonedUtc", args |-> IF c.tt = "none" THEN [recv |-> CivilFromDays(c.n)] ELSE [recv |-> CivilFromDays(c.n), time |-> t],
+             out |-> IF (c.tt # "none" /\ DTNew(DT(CivilFromDays(c.n), t)).kind # "ok") \/ ~InInstantRange(ns) THEN ErrRange ELSE Ok(ns)]
     [] c.k = "PlainDate.epochNsUtc" -> [op |-> "PlainDate.epochNsUtc", args |-> [recv |-> CivilFromDays(c.n)],
                                         out |-> IF c.n > MinDay THEN Ok(Mul(DayNsBig, FromInt(c.n))) ELSE ErrRange]
     [] c.k = "Instant.new" -> [op |-> "Instant.new", args |-> [ns |-> c.ns], out |-> InstantNew(c.ns)]
